@@ -11,14 +11,7 @@ sys.path.insert(0, os.path.join(VERIF, "engine"))
 BASELINE_CMD = ("cd /repo && cargo nextest run --workspace --no-fail-fast --test-threads 8 --offline "
                 "|| cargo test --workspace --no-fail-fast --offline")
 
-NOT_APPLICABLE = {
-    "C16": "the law quantifies over values and over the types the Form derive macro can generate. The only structural clause in reach (agreement of "
-           "the names/tags written by the generated write_with with those matched by the generated recogniser) can be evaluated only on macro expansions, "
-           "and the analysed workspace holds about ten derived types outside test code, none using most of the attribute combinations the property "
-           "enumerates; a rule over them would be vacuous for nearly all of the quantifier and a rule over the macro's source would be a text proxy. "
-           "MessagePack marker tables and a reader panic audit are checkable but are not a necessary condition strong enough to claim the property "
-           "(DESIGN.md section 9.6).",
-}
+NOT_APPLICABLE = {}
 
 PENDING_REASON = "rule pack not yet armed in this revision of /verif (static analysis planned, see DESIGN.md section 4); not claimed until it runs"
 
